@@ -25,10 +25,15 @@ package ecscache
 //@ func (*dnsmsg.Cloner).Clone
 //@   requires msg != nil
 //@   modifies heap
+//@   preserves cacheRequest.*, agd.RequestInfo.*, dnsmsg.ECS.*, geoip.Location.*
 //@   ensures clone != nil && fresh(clone) && clone.Rcode == old(msg.Rcode) && clone.AuthenticatedData == old(msg.AuthenticatedData) &&
 //@           len(clone.Answer) == old(len(msg.Answer)) && len(clone.Ns) == old(len(msg.Ns)) && len(clone.Extra) == old(len(msg.Extra))
 //@   ensures validRRs(clone.Answer) && validRRs(clone.Ns) && validRRs(clone.Extra)
 //@   ensures msg.Rcode == old(msg.Rcode)
+//@   ensures source-untouched: msg.Extra == old(msg.Extra) && (forall i int :: 0 <= i && i < len(msg.Extra) ==> msg.Extra[i] == old(msg.Extra[i]) &&
+//@             (isOPT(msg.Extra[i]) ==> optAt(msg, i).Option == old(optAt(msg, i).Option) &&
+//@                (forall j int :: 0 <= j && j < len(optAt(msg, i).Option) ==> optAt(msg, i).Option[j] == old(optAt(msg, i).Option[j]))))
+//@   ensures forall i int :: 0 <= i && i < len(clone.Extra) && isOPT(clone.Extra[i]) ==> optAt(clone, i) != nil && optsValid(optAt(clone, i))
 
 //@ func setRespAD
 //@   property C04
@@ -115,3 +120,88 @@ package ecscache
 //@ func respIsECSDependent
 //@   property C05
 //@   ensures scope == 0 ==> !ok
+
+// The cache key is the digest of exactly these fields of the cache request, in
+// this order; the subnet (address and length) goes in only for answers that
+// depend on it, the opt-out flag only for those that do not.
+//@ pred ecsKeyBase(host string, qt int, qc int, do bool, sub netip.Prefix) =
+//@        hmixB6(hmixS(hseed(hashSeed), host), qt % 256, qt / 256, qc % 256, qc / 256, do ? 1 : 0, addrIs6(prefixAddr(sub)) ? 1 : 0)
+//@ pred ecsKey(host string, qt int, qc int, do bool, sub netip.Prefix, declined bool, dep bool) = wrap(hsum(dep ?
+//@        hmix1(hmixA(ecsKeyBase(host, qt, qc, do, sub), prefixAddr(sub)), wrap(prefixBits(sub), uint8)) :
+//@        hmix1(ecsKeyBase(host, qt, qc, do, sub), declined ? 1 : 0)), uint64)
+//@ pred keyOf(cr *cacheRequest, dep bool) = ecsKey(cr.host, cr.qType, cr.qClass, cr.reqDO, cr.subnet, cr.isECSDeclined, dep)
+
+//@ func (*Middleware).toCacheKey
+//@   property C05
+//@   requires cr != nil
+//@   modifies hst, ipBytes
+//@   ensures key-covers-subnet-iff-dependent: key == keyOf(cr, respIsECSDependent)
+
+// Cached items are well-formed (toCacheItem stores a clone of a response).
+//@ pred itemsOK() = forall it *cacheItem :: it != nil ==> it.msg != nil && validRRs(it.msg.Answer) && validRRs(it.msg.Ns) && validRRs(it.msg.Extra)
+
+//@ func (*Middleware).itemFromCache
+//@   property C05
+//@   requires mw != nil && mw.logger != nil && cr != nil && ref(cache) != 0
+//@   modifies cgetCache, cgetKey
+//@   ensures cgetCache == cache && cgetKey == key && (ok ==> item != nil && item.host == cr.host) && (!ok ==> item == nil)
+
+//@ func (*Middleware).get
+//@   property C05
+//@   requires mw != nil && mw.logger != nil && mw.cloner != nil && ref(mw.cache) != 0 && ref(mw.ecsCache) != 0 && cr != nil && req != nil && itemsOK()
+//@   modifies heap, lastLowest, cgetCache, cgetKey, hst, ipBytes
+//@   ensures opted-out-never-served-from-the-subnet-cache: old(cr.isECSDeclined) ==> !isECSDependent && (resp != nil ==> cgetCache == mw.cache)
+//@   ensures subnet-answers-only-under-the-subnet-key: isECSDependent ==> resp != nil && cgetCache == mw.ecsCache && cgetKey == old(keyOf(cr, true))
+//@   ensures resp != nil && !isECSDependent ==> cgetCache == mw.cache && cgetKey == old(keyOf(cr, false))
+
+//@ func isCacheable
+//@   modifies nothing
+
+// Only extended-DNS-error options survive on the way back to the client.
+//@ func isNotEDE
+//@   property C05
+//@   requires ref(o) != 0
+//@   ensures subnet-options-are-removed: isptr(o, dns.EDNS0_SUBNET) ==> ok
+
+//@ fpred optNoSubnet(o *dns.OPT) = forall j int :: 0 <= j && j < len(o.Option) ==> !isptr(o.Option[j], dns.EDNS0_SUBNET)
+//@ pred optsOK(sec []dns.RR) = forall i int :: 0 <= i && i < len(sec) && isOPT(sec[i]) ==> asptr(sec[i], dns.OPT) != nil
+// Distinct OPT records do not share the backing array of their options.
+// (stated with a witness function from backing arrays to their one owner).
+//@ fun optArrOwner(a int) *dns.OPT
+//@ pred optsApart() = forall o *dns.OPT :: o != nil ==> (arr(o.Option) != 0 ==> optArrOwner(arr(o.Option)) == o) && (arr(o.Option) == 0 ==> len(o.Option) == 0)
+
+//@ func filterRR
+//@   property C05
+//@   requires ref(rr) != 0 && (isOPT(rr) ==> asptr(rr, dns.OPT) != nil) && optsApart()
+//@   modifies asptr(rr, dns.OPT).Option, elems(asptr(rr, dns.OPT).Option)
+//@   ensures filtered == rr || filtered == nil
+//@   ensures isOPT(rr) ==> optNoSubnet(asptr(rr, dns.OPT))
+//@   ensures isOPT(rr) ==> arr(asptr(rr, dns.OPT).Option) == old(arr(asptr(rr, dns.OPT).Option))
+//@   ensures other-records-keep-their-options: forall o *dns.OPT :: o != nil && (o != asptr(rr, dns.OPT) || !isOPT(rr)) ==> (old(optNoSubnet(o)) ==> optNoSubnet(o))
+//@   ensures optsApart()
+//@   ensures only-OPT-records-are-touched: !isOPT(rr) ==> asptr(rr, dns.OPT).Option == old(asptr(rr, dns.OPT).Option) &&
+//@             (forall j int :: raw(asptr(rr, dns.OPT).Option, j) == old(raw(asptr(rr, dns.OPT).Option, j)))
+
+//@ func rmHopToHopRRs
+//@   property C05
+//@   requires validRRs(rrs) && optsOK(rrs) && optsApart()
+//@   modifies elems(rrs), dns.OPT.Option, allelems(dns.EDNS0)
+//@   ensures no-subnet-option-left: forall i int :: 0 <= i && i < len(filtered) && isOPT(filtered[i]) ==> optNoSubnet(asptr(filtered[i], dns.OPT))
+//@   ensures validRRs(filtered) && optsOK(filtered) && optsApart() && len(filtered) <= len(rrs)
+//@   loop 1 invariant -1 <= #i && #i < len(rrs) && 0 <= len(filtered) && len(filtered) <= #i + 1
+//@   loop 1 invariant arr(filtered) == arr(rrs) && off(filtered) == off(rrs) && cap(filtered) == len(rrs)
+//@   loop 1 invariant forall k int :: #i < k && k < len(rrs) ==> rrs[k] == old(rrs[k])
+//@   loop 1 invariant forall k int :: 0 <= k && k < len(filtered) ==> ref(filtered[k]) != 0
+//@   loop 1 invariant forall k int :: 0 <= k && k < len(filtered) && isOPT(filtered[k]) ==> optNoSubnet(asptr(filtered[k], dns.OPT))
+//@   loop 1 invariant forall k int :: #i < k && k < len(rrs) && isOPT(rrs[k]) ==> asptr(rrs[k], dns.OPT) != nil
+//@   loop 1 invariant optsApart()
+
+//@ func (*Middleware).set
+//@   property C05
+//@   requires mw != nil && mw.cloner != nil && ref(mw.cache) != 0 && ref(mw.ecsCache) != 0 && cr != nil && resp != nil
+//@   requires validRRs(resp.Answer) && validRRs(resp.Ns) && validRRs(resp.Extra)
+//@   modifies heap, lastLowest, csets, csetKey, csetVal, hst, ipBytes
+//@   ensures only-the-matching-cache: forall c any :: c != (respIsECSDependent ? mw.ecsCache : mw.cache) ==> csets[c] == old(csets[c])
+//@   ensures stored-under-its-key: (csets[respIsECSDependent ? mw.ecsCache : mw.cache] == old(csets[respIsECSDependent ? mw.ecsCache : mw.cache]) ||
+//@             (csets[respIsECSDependent ? mw.ecsCache : mw.cache] == old(csets[respIsECSDependent ? mw.ecsCache : mw.cache]) + 1 &&
+//@              csetKey[respIsECSDependent ? mw.ecsCache : mw.cache] == old(keyOf(cr, respIsECSDependent))))
